@@ -482,6 +482,27 @@ def do_op(lab, side, op, content):
                 return ("noop", op)
             p.delete(i.oid)
             return ("delete", n)
+        if op.startswith("mv:") or op.startswith("mvdir:"):
+            # generic rename / move: "mv:/d/a:/d/b" (file), "mvdir:/e:/d" (folder)
+            k_, src, dst = op.split(":")
+            i = info(src)
+            want = "file" if k_ == "mv" else "dir"
+            if not i or i.otype.value != want or info(dst):
+                return ("noop", op)
+            par = dst.rsplit("/", 1)[0]
+            if par and not info(par):
+                return ("noop", op)
+            if k_ == "mvdir" and (dst + "/").startswith(src + "/"):
+                return ("noop", op)
+            p.rename(i.oid, root + dst)
+            return ("rename" if k_ == "mv" else "rendir", src, dst)
+        if op.startswith("rmdir:"):
+            n = op.split(":")[1]
+            i = info(n)
+            if not i or i.otype.value != "dir" or list(p.listdir(i.oid)):
+                return ("noop", op)
+            p.delete(i.oid)
+            return ("rmdir", n)
         if op in ("rename_a_b", "rename_b_a", "move_a_d", "rename_a_c"):
             src, dst = {"rename_a_b": ("/a", "/b"), "rename_b_a": ("/b", "/a"), "move_a_d": ("/a", "/d/a"), "rename_a_c": ("/a", "/c")}[op]
             i = info(src)
